@@ -20,6 +20,7 @@ def symbolic(code):
     children = []
     child_no = {}
     out = []
+    lookup = H.line_lookup(code)
     for f in folded:
         op = f["opcode"]
         if op in D.JUMPS:
@@ -54,7 +55,7 @@ def symbolic(code):
             operand = None
         else:
             operand = ("int", D.wrap_oparg(f["arg"]))
-        out.append((f["opname"], operand, H.addr2line(code, f["start"])))
+        out.append((f["opname"], operand, lookup(f["start"])))
     return {"instrs": out, "children": children, "folded": folded}
 
 
